@@ -131,7 +131,9 @@ def find_witness(lhs, rhs, conds=(), tries=3000, seed=12345, reltol=1e-9):
         env = {}
         for v in vs:
             mode = rnd.random()
-            if mode < 0.4:
+            if mode < 0.12:
+                val = 10 ** rnd.uniform(-9, -2)  # preconditions of limit statements need tiny values
+            elif mode < 0.4:
                 val = rnd.uniform(0.02, 0.98)
             elif mode < 0.6:
                 val = rnd.uniform(-1, 1)
@@ -406,7 +408,10 @@ class Report:
                 except Exception:  # noqa
                     continue
                 self.crosschecks += 1
-                if not (abs(a - b) <= 1e-7 * max(1.0, abs(a), abs(b)) or (a != a and b != b)):
+                # a case may declare that its native side is computed differently (e.g. a numerical
+                # derivative): its own replay tolerance then bounds the comparison
+                cc_tol = max(1e-7, 10 * _o.get("replay_tol", 0))
+                if not (abs(a - b) <= cc_tol * max(1.0, abs(a), abs(b)) or (a != a and b != b)):
                     self.crosscheck_mismatches += 1
                     self.add(Ob(f"{name}/selfcheck/cpython-crosscheck/{sub}", "selfcheck", ERROR, "eval", 0, f"symbolic result evaluates to {a!r}, native run gives {b!r} at {dict(list(env.items())[:6])}"))
 
